@@ -26,7 +26,7 @@ func init() {
 			"integer division is only generated with a non-zero constant divisor (division by zero is a documented panic)",
 			"functions are looked up by the type of the first operand; string and enum operands count as different types for binary functions (mixing them is a type mismatch)",
 		},
-		Stages:   stages(15000, 400000, 500, 0),
+		Stages:   stages(15000, 1400000, 500, 0),
 		RunCase:  runC07,
 		Conclude: shapeConclude(40),
 	})
